@@ -55,7 +55,14 @@ impl Parse for WherePredicatesOrBool {
 pub(crate) fn meta_name_value_2_where_predicates_bool(
     name_value: &MetaNameValue,
 ) -> syn::Result<WherePredicatesOrBool> {
-    if let Expr::Lit(lit) = &name_value.value {
+    let mut value = &name_value.value;
+
+    // a value forwarded through a `macro_rules!` fragment (e.g. `$v:expr`) is wrapped in invisible groups
+    while let Expr::Group(group) = value {
+        value = group.expr.as_ref();
+    }
+
+    if let Expr::Lit(lit) = value {
         return WherePredicatesOrBool::from_lit(&lit.lit);
     }
 
